@@ -7,7 +7,11 @@ from common import Check
 
 def main(tier, seed, replay=None, pid='C05', mode='kill', powerloss=False):
     ck = Check(pid, tier, seed)
-    names = scen.QUICK if tier == 'quick' else list(scen.SCEN)
+    names = list(scen.QUICK) if tier == 'quick' else list(scen.SCEN)
+    # generated scenarios (random pre-state, options, inputs): every crash / power-loss / fault point of each
+    import random as _random
+    import tracecheck as _tcn
+    names += _tcn.random_names(_random.Random(f'{pid}:{seed}'), 1 if tier == 'quick' else 6)
     if pid == 'C06':
         names = [n for n in names if n not in scen.DAMAGED_PRE and n not in scen.NON_DEFAULT_FSYNC]
     what = {'C05': 'the process is killed (os._exit: user-space buffers and open SQL transactions are lost) before its n-th gated call',
